@@ -881,7 +881,7 @@ func calledOnlyFrom(p *core.Prog, fn *ssa.Function, allowed func(top string) boo
 		if depth > 6 {
 			return false, "call chain above " + p.Name(root) + " too deep to follow"
 		}
-		callers := p.Callers(root)
+		callers := p.RealCallers(root)
 		if len(callers) == 0 {
 			return false, p.Name(root) + " is not one of the permitted functions and has no caller that is"
 		}
